@@ -271,20 +271,37 @@ InterPairs(c) == { e \in SUBSET Atoms(c) : Cardinality(e) = 2 /\ Cardinality({at
 CasesMissing(u) == Plain({g \in GN(3) : g[1] < 3 \/ g[3][2] = "A"}, { << >> }) \cup Plain({g \in GN(4) : \A r \in 1..g[1] : g[3][r] = "B"}, { << >> })
 MInit == /\ case \in Cases
          /\ \E E \in SUBSET InterPairs(case) : \E rm \in {S \in SUBSET Atoms(case) : Cardinality(S) <= 1} :
-               st = [St0(case) EXCEPT !.pc = "missing",
+               st = [St0(case) EXCEPT !.pc = "missing", !.missing0 = IMissing(case, BlockEdges(case), {}),
                        !.final = Final(case, [edges |-> BlockEdges(case) \cup E, attr |-> V0(case).attr], {}, rm, {})]
 MSpec == MInit /\ [][FindMissing /\ UNCHANGED case]_vars
 
-(* ---- the gate over multi-molecule topologies: molecule types c1, c2 (connected) and d1, d2 (disconnected), lists of 1-3 entries, counts 1-2 *)
-GateConn == [c1 |-> TRUE, c2 |-> TRUE, d1 |-> FALSE, d2 |-> FALSE]
-GateEntries == { [mol |-> t, count |-> k] : t \in DOMAIN GateConn, k \in 1..2 }
-GateTops == UNION { [1..n -> GateEntries] : n \in 1..3 }
+(* ---- the gate over multi-molecule topologies and supplied coordinates.  Four molecule types of three A residues: c1, c2 have a *)
+(* connected residue graph after link application, d1, d2 a disconnected one (decided by the P-layer, GateMolsAsNamed)              *)
+GateMol == [c1 |-> MkCase(3, {{1, 2}, {2, 3}}, NoLab({{1, 2}, {2, 3}}), <<"A", "A", "A">>, NoLabs(3), << LB(P1, "0.2") >>),
+            c2 |-> MkCase(3, {{1, 2}, {1, 3}}, NoLab({{1, 2}, {1, 3}}), <<"A", "A", "A">>, NoLabs(3), << LB(GT, "0.2") >>),
+            d1 |-> MkCase(3, {{1, 2}, {1, 3}}, NoLab({{1, 2}, {1, 3}}), <<"A", "A", "A">>, NoLabs(3), << LB(P1, "0.2") >>),
+            d2 |-> MkCase(3, {{1, 3}, {2, 3}}, NoLab({{1, 3}, {2, 3}}), <<"A", "A", "A">>, NoLabs(3), << LB(P1, "0.2") >>)]
+ConnOf(c) == LET e == PEnd(c)  f == PFinalE(c, e) IN ResConnected(c, f.edges, f.removed)
+GateConn == [t \in DOMAIN GateMol |-> ConnOf(GateMol[t])]
+GateMolsAsNamed == GateConn = [c1 |-> TRUE, c2 |-> TRUE, d1 |-> FALSE, d2 |-> FALSE]
+GateEntries == { [mol |-> t, count |-> k] : t \in DOMAIN GateMol, k \in 1..2 }
+GateTopsN(n) == [1..n -> GateEntries]
 RECURSIVE ExpandTop(_)
-ExpandTop(top) == IF Len(top) = 0 THEN <<>> ELSE [j \in 1..top[1].count |-> GateConn[top[1].mol]] \o ExpandTop(Tail(top))
-GInit == case \in { [top |-> t] : t \in GateTops } /\ st = [pc |-> "gate"]
+ExpandTop(top) == IF Len(top) = 0 THEN <<>>
+                  ELSE [j \in 1..top[1].count |-> [conn |-> GateConn[top[1].mol], rn |-> [r \in 1..3 |-> GateMol[top[1].mol].rattr[r].resname]]] \o ExpandTop(Tail(top))
+NResOf(top) == 3 * Len(ExpandTop(top))
+NoCoord == [kind |-> "none", k |-> 0, res |-> <<>>]
+\* -c / -mc files covering all residues, all but the last, the first molecule only, one residue; with and without -res A
+CoordsFor(top) == {NoCoord} \cup { [kind |-> kd, k |-> k, res |-> rs] : kd \in {"c", "mc"}, k \in {NResOf(top), NResOf(top) - 1, 3, 1}, rs \in {<<>>, <<"A">>} }
+GateCases == { [top |-> t, co |-> NoCoord] : t \in GateTopsN(3) }
+             \cup UNION { { [top |-> t, co |-> co] : co \in CoordsFor(t) } : t \in GateTopsN(1) \cup GateTopsN(2) }
+GInit == case \in GateCases /\ st = [pc |-> "gate"]
 GSpec == GInit /\ [][UNCHANGED vars]_vars
-GateIsExpected == IGateRefuses(ExpandTop(case.top)) = GateRefuses(ExpandTop(case.top))
-GateExport == PrintT(<<"CASE", ToJson([top |-> case.top, refuse |-> GateRefuses(ExpandTop(case.top))])>>)
+GateIsExpected == GateMolsAsNamed /\ GateOK(ExpandTop(case.top), case.co)
+ASSUME Fam # "gate" \/ PrintT(<<"GATEMOLS", ToJson([t \in DOMAIN GateMol |-> [input |-> [n |-> GateMol[t].n, resid |-> GateMol[t].resid, rattr |-> GateMol[t].rattr, edges |-> GateMol[t].edges],
+                                                                       blocks |-> GateMol[t].blocks, links |-> GateMol[t].links, connected |-> GateConn[t]]])>>)
+GateExport == PrintT(<<"CASE", ToJson([top |-> case.top, co |-> case.co,
+                                       must_refuse |-> GateMustRefuse(ExpandTop(case.top), case.co), must_pass |-> GateMustPass(ExpandTop(case.top))])>>)
 
 (* ---- the family of this run *)
 FamGs == CASE Fam = "A" -> GsA(0) [] Fam = "B" -> GsB(0) [] Fam = "C" -> GsC(0) [] Fam = "D" -> GsD(0) [] Fam = "E" -> GsE(0) [] Fam = "M" -> GsM(0) [] Fam = "F" -> GsF(0) [] Fam = "N" -> GsN(0) [] OTHER -> {}
@@ -326,6 +343,8 @@ ExpRec(c, e) ==
    removed |-> AtomSeq(f.removed),
    calls |-> SetToSeq(f.calls),
    missing |-> SetToSeq({SetToSortSeq(x, <) : x \in Missing(c, f.edges)}),
+   \* asked on the freshly mapped molecule, before any link is applied (the answer depends on the current molecule only)
+   missing0 |-> SetToSeq({SetToSortSeq(x, <) : x \in Missing(c, BlockEdges(c))}),
    connected |-> ResConnected(c, f.edges, f.removed),
    \* recognition of the repaired finding F17: the interactions the molecule has if WriteBack confuses version numbers with node keys
    verkey |-> LET d == StripLi(PIntsW(c, e.app, TRUE)) IN IF d = f.ints THEN <<>> ELSE SetToSeq(d),
